@@ -22,7 +22,8 @@ CASES = {"quick": 4000, "thorough": 300000}
 RULE = ("generated grammars x configurations x 6 inputs (40% mutated), each parsed with memoization off and on (same "
         "memoizing metamodel for the whole sequence, first input repeated last); non-trivial: in the reference interpreter "
         "(a plain backtracking parser) some rule is attempted more than once at one position for some input; distinct by "
-        "canonical JSON")
+        "canonical JSON"
+        " also: a grammar family whose alternatives start with the same rule referenced suppressed / assigned / plain")
 ASSUMPTIONS = [
     "memoization must be observationally neutral; no reference semantics is involved (textX is compared with itself)",
     "grammars in which a rule is reachable under two whitespace modes (rule modifiers, eolterm) are bucketed separately: "
